@@ -282,18 +282,19 @@ impl Model {
         if start > 0 {
             self.view[start - 1].wrapped = false;
         }
-        for _ in 0..n {
-            let l = self.view.remove(start);
-            if start == 0 && !self.alt {
-                self.sb.push(l);
-                self.eff.sb_push += 1;
-            } else if start == 0 {
-                self.above.push(l);
-                self.eff.above_push += 1;
+        // (drain + splice rather than n single-row moves: counts of 65535 on 100,000-row screens)
+        let off: Vec<MLine> = self.view.drain(start..start + n).collect();
+        if start == 0 {
+            if !self.alt {
+                self.eff.sb_push += n;
+                self.sb.extend(off);
+            } else {
+                self.eff.above_push += n;
+                self.above.extend(off);
             }
-            let b = self.blank();
-            self.view.insert(end - 1, b);
         }
+        let b = self.blank();
+        self.view.splice(end - n..end - n, std::iter::repeat(b).take(n));
     }
 
     fn scroll_down(&mut self, start: usize, end: usize, n: usize) {
@@ -302,11 +303,9 @@ impl Model {
         self.eff.scroll_n = n;
         self.eff.scroll_top = start;
         self.eff.scroll_down = true;
-        for _ in 0..n {
-            self.view.remove(end - 1);
-            let b = self.blank();
-            self.view.insert(start, b);
-        }
+        self.view.drain(end - n..end);
+        let b = self.blank();
+        self.view.splice(start..start, std::iter::repeat(b).take(n));
         if start > 0 {
             self.view[start - 1].wrapped = false;
         }
